@@ -134,12 +134,12 @@ for case in spec['cases']:
 json.dump(results, real_open(spec['work'] + '/results.json', 'w'))
 '''
 
-def make_docx(path, redlined=True):
+def make_docx(path, redlined=True, lead=''):
     core.use_repo()
     import docx
     from docx.oxml import parse_xml
     d = docx.Document()
-    d.add_paragraph('The quick brown fox jumps over the lazy dog.')
+    d.add_paragraph(lead + 'The quick brown fox jumps over the lazy dog.')
     p = d.add_paragraph('Second paragraph with ')
     r = p.add_run('bold'); r.bold = True
     p.add_run(' text and a tail.')
@@ -163,6 +163,10 @@ def build_template(tdir):
     shutil.copy(os.path.join(tdir, 'doc.docx'), os.path.join(tdir, 'doc_redlined.docx'))
     shutil.copy(os.path.join(tdir, 'doc.docx'), os.path.join(tdir, 'doc_reviewed.docx'))
     make_docx(os.path.join(tdir, 'other.docx'), redlined=False)
+    # the same text with a clause number put in front: the diff is a pure insertion at the very start (no backward anchor), the one
+    # path of the diff code that logs
+    make_docx(os.path.join(tdir, 'numbered.docx'), redlined=False, lead='1. ')
+    open(os.path.join(tdir, 'numbered.txt'), 'w').write('1. The quick brown fox jumps over the lazy dog.\n\nSecond paragraph with **bold** text and a tail.\n\nPayment is due in sixty days.')
     open(os.path.join(tdir, 'notdocx.docx'), 'w').write('this is plain text, not a zip')
     data = open(os.path.join(tdir, 'doc.docx'), 'rb').read()
     open(os.path.join(tdir, 'truncated.docx'), 'wb').write(data[:len(data) // 2])
@@ -176,11 +180,14 @@ def build_template(tdir):
     open(os.path.join(tdir, 'text.md'), 'w').write('The quick brown fox.\n\nAnother line.')
     json.dump([{'target_text': 'quick brown', 'new_text': 'slow red', 'comment': 'c'}], open(os.path.join(tdir, 'edits.json'), 'w'))
     json.dump([{'target_text': 'quick brown', 'new_text': 'slow red'}, {'target_text': 'NOT THERE', 'new_text': 'x'}], open(os.path.join(tdir, 'edits_skip.json'), 'w'))
+    # new text that cannot be encoded: a lone surrogate, which a JSON escape delivers as is ("\\ud800")
+    open(os.path.join(tdir, 'edits_surrogate.json'), 'w').write('[{"target_text": "quick brown", "new_text": "slow \\ud800 red"}]')
     open(os.path.join(tdir, 'edits_bad.json'), 'w').write('{not json')
 
 INPUTS = ['doc.docx', 'missing.docx', 'notdocx.docx', 'truncated.docx', 'badxml.docx']
 EDITS = [{'target_text': 'quick brown', 'new_text': 'slow red', 'comment': 'why'}, {'target_text': 'lazy', 'new_text': ''}]
 EDITS_SKIP = EDITS + [{'target_text': 'ABSENT TEXT', 'new_text': 'y'}]
+EDITS_SURROGATE = [{'target_text': 'quick brown', 'new_text': 'slow \ud800 red'}]      # unusable input: the result cannot be written as UTF-8
 ACTIONS = [{'action': 'ACCEPT', 'target_id': 'Chg:1'}, {'action': 'REJECT', 'target_id': 'Chg:2'}, {'action': 'ACCEPT', 'target_id': 'Chg:77'}, {'action': 'REPLY', 'target_id': 'Com:1', 'text': 'noted by the reviewer'}]
 
 def base_cases():
@@ -199,6 +206,8 @@ def base_cases():
         cs.append(('tool', 'accept_all_changes', {'docx_path': D + inp, 'output_path': D + 'existing_out.docx'}, {'out': 'existing_out.docx' if inp == 'doc.docx' else None}))
         cs.append(('tool', 'apply_edits_as_markdown', {'docx_path': D + inp, 'edits': EDITS}, {'out': 'doc_markup.md' if inp == 'doc.docx' else None}))
         cs.append(('tool', 'apply_edits_as_markdown', {'docx_path': D + inp, 'edits': EDITS, 'output_path': D + 'existing_out.md', 'highlight_only': True, 'include_index': True, 'clean_view': False}, {'out': 'existing_out.md' if inp == 'doc.docx' else None}))
+    cs.append(('tool', 'diff_docx_files', {'original_path': D + 'other.docx', 'modified_path': D + 'numbered.docx'}, {}))
+    cs.append(('tool', 'diff_docx_files', {'original_path': D + 'doc.docx', 'modified_path': D + 'numbered.docx', 'compare_clean': False}, {}))
     # in-place conventions
     cs.append(('tool', 'apply_structured_edits', {'original_docx_path': D + 'doc_redlined.docx', 'edits': EDITS_SKIP, 'author_name': 'Rev'}, {'out': 'doc_redlined.docx'}))
     cs.append(('tool', 'manage_review_actions', {'original_docx_path': D + 'doc_reviewed.docx', 'actions': ACTIONS, 'author_name': 'Rev'}, {'out': 'doc_reviewed.docx'}))
@@ -207,6 +216,11 @@ def base_cases():
     cs.append(('tool', 'manage_review_actions', {'original_docx_path': D + 'doc_reviewed.docx', 'actions': ACTIONS, 'author_name': 'Rev', 'output_path': D + 'new_out3.docx'}, {'out': 'new_out3.docx'}))
     cs.append(('tool', 'apply_structured_edits', {'original_docx_path': D + 'doc.docx', 'edits': EDITS, 'author_name': '  '}, {'out': None, 'err': True}))
     cs.append(('tool', 'manage_review_actions', {'original_docx_path': D + 'doc.docx', 'actions': ACTIONS, 'author_name': ''}, {'out': None, 'err': True}))
+    # unusable edit text (unencodable): an error report, and neither a new nor an existing output file is touched
+    cs.append(('tool', 'apply_edits_as_markdown', {'docx_path': D + 'doc.docx', 'edits': EDITS_SURROGATE}, {'out': None, 'err': True}))
+    cs.append(('tool', 'apply_edits_as_markdown', {'docx_path': D + 'doc.docx', 'edits': EDITS_SURROGATE, 'output_path': D + 'existing_out.md'}, {'out': None, 'err': True}))
+    cs.append(('cli', 'markup', ['markup', D + 'doc.docx', D + 'edits_surrogate.json'], {'exit0': False}))
+    cs.append(('cli', 'markup', ['markup', D + 'doc.docx', D + 'edits_surrogate.json', '-o', D + 'existing_out.md'], {'exit0': False}))
     # CLI
     for inp in INPUTS:
         cs.append(('cli', 'extract', ['extract', D + inp], {'exit0': inp == 'doc.docx'}))
@@ -217,6 +231,8 @@ def base_cases():
         cs.append(('cli', 'apply', ['apply', D + inp, D + 'edits.json', '-o', D + 'existing_out.docx'], {'exit0': inp == 'doc.docx', 'out': 'existing_out.docx'}))
         cs.append(('cli', 'apply', ['apply', D + inp, D + 'modified.txt', '--author', 'Z'], {'exit0': inp == 'doc.docx', 'out': 'doc_redlined.docx'}))
         cs.append(('cli', 'markup', ['markup', D + inp, D + 'edits.json'], {'exit0': inp == 'doc.docx', 'out': 'doc.md'}))
+    cs.append(('cli', 'diff', ['diff', D + 'other.docx', D + 'numbered.docx'], {'exit0': True}))
+    cs.append(('cli', 'apply', ['apply', D + 'doc.docx', D + 'numbered.txt', '-o', D + 'new_out5.docx'], {'exit0': True, 'out': 'new_out5.docx'}))
     cs.append(('cli', 'apply', ['apply', D + 'doc_redlined.docx', D + 'edits.json'], {'exit0': True, 'out': 'doc_redlined.docx'}))
     cs.append(('cli', 'apply', ['apply', D + 'doc_redlined.docx', D + 'edits.json', '-o', D + 'new_out4.docx'], {'exit0': True, 'out': 'new_out4.docx'}))
     cs.append(('cli', 'apply', ['apply', D + 'doc.docx', D + 'edits_skip.json'], {'exit0': False, 'out': 'doc_redlined.docx', 'skipped': True}))
